@@ -443,6 +443,37 @@ func RunC02(d *Driver) *Report {
 	for _, src := range TypeMatrixPrograms() {
 		evalStream(r, d, "typematrix", src, RunOpts{}, parts, true, oracle)
 	}
+	// accepted programs of the typed fragment satisfy the hypotheses of the type soundness theorem
+	{
+		ntc := 400
+		if Thorough() {
+			ntc = 5000
+		}
+		var srcs []string
+		of := GenOpts{Funcs: true, Any: true, Maps: true, Strings: true, NonAscii: true, Special: true}
+		for i := 0; i < ntc; i++ {
+			srcs = append(srcs, NewProgGen(rng, of).Program())
+		}
+		hand := tcHandWritten()
+		asked, inFrag, okN := c02TypeCheck(r, d, append(srcs, hand...))
+		for _, h := range hand {
+			if v, in, why := tcCheck(d, h); v == "" || !in {
+				r.Disagree(Case{Stream: "typecheck-handwritten", Input: h, Real: "verdict=" + v, Model: why, Note: "a hand-written program of the typed fragment must be accepted by the parser and lie in the fragment"})
+			}
+		}
+		neg, negRej := 0, 0
+		for _, src := range append(hand, srcs[:min(len(srcs), 100)]...) {
+			if a, rj := tcNegative(d, src); a {
+				neg++
+				if rj {
+					negRej++
+				} else if in, _ := func() (bool, string) { p, _, _ := ParseSrc(src); return tcFragment(p) }(); in {
+					r.Hist("typecheck", "negative control not rejected (the corrupted name is unused)")
+				}
+			}
+		}
+		r.Rule += fmt.Sprintf(" | Type checker tie: %d accepted programs (generated with functions, any, maps, strings; %d hand-written, one per typing rule incl. recursion) sent with the parser's function signatures and global types to Model/Check.lean (proved sound for the hypotheses of program_never_goes_wrong): %d lie in the typed fragment and %d of those are accepted by the checker; a rejection is a disagreement. Negative controls: %d requests with one global or result type corrupted, %d rejected", asked, len(hand), inFrag, okN, neg, negRej)
+	}
 	for _, w := range Corpus("C02") {
 		if strings.Contains(w.Src, "// host-only") {
 			continue // would take the harness process down; run through the binary above
